@@ -366,6 +366,16 @@ example : stdFrameIndexV (.npInt 8 false 3) false 3 = .ok 2 := by decide
 example : stdFrameIndexV (.float (3/2)) false 3 = .error .type := (non_integer_frame_number_refused (.float (3/2)) false 3 rfl).1
 example : stdFrameIndexV (.bool true) false 3 = .ok 0 := by decide
 
+
+/-- **Every kind of `fp` that `imread` documents is opened lazily as well**: a path as str, `pathlib.Path`, any other
+`os.PathLike` (a `PurePath`, an object with `__fspath__` - refused before fix cd829d3), the file content as bytes, a
+DicomIO, any other binary file object.  Over the regenerated type tuples of `Image.from_file` (T1c) and
+`ImageFileReader.__init__` (T11f); what the types mean (`isInstance`) is Python's and is exercised by the `path` dimension
+of the correspondence. -/
+theorem lazy_opens_every_documented_kind : ∀ k ∈ FpKind.all, lazyOpens k = true := by decide
+
+example : lazyHandedToReader .binaryIO = .dicomIO ∧ lazyHandedToReader .purePath = .purePath := by decide
+
 /-! ## ONE specification for every access path: frame i = slice i of the decoded pixel data
 
 `sliceBits pd N i` = bits `i*N .. (i+1)*N` of the unpacked PixelData (native 1-bit), `sliceBytes pd L i` = bytes
